@@ -121,7 +121,7 @@ def c15_case(draw, tier="quick"):
             elif isinstance(v, float) and math.isfinite(v) and v == int(v):
                 o[k] = int(v)
         history.append(o)
-    special = draw(st.sampled_from([None, None, None, "axis_named_like_option", "bad_type", "bad_rank", "bad_shape", "bad_arity"]))
+    special = draw(st.sampled_from([None, None, None, "axis_named_like_option", "bad_type", "bad_type_shaped", "bad_rank", "bad_shape", "bad_arity"]))
     return {"adapter": adapter, "fn": fn, "base": base, "history": history, "special": special}
 
 
@@ -140,6 +140,8 @@ def make_fn(name, rec, bad=None):
     def post(r):
         if bad == "bad_type":
             return np.asarray(r).tolist()
+        if bad == "bad_type_shaped":
+            return LV.ShapedNonTensor(np.asarray(r))
         if bad == "bad_rank":
             return np.asarray(r)[..., None]
         if bad == "bad_shape":
